@@ -95,12 +95,149 @@ func runC14(c *Ctx) {
 			r.Fail("derivedset/collector-direction", pkg+".readableSet.SubtractReactive", p.posStr(fd.Pos()), fmt.Sprintf("own source must Add and the other sets must Subtract (own=%s, others=%s)", own, other))
 		}
 	}
-	if s, fd := srcOf(p, pkg, "derivedSet", "InheritFrom"); fd == nil {
+	if fd := p.FuncDecl(pkg, "derivedSet", "InheritFrom"); fd == nil {
 		r.Unresolved("derivedset/unsubscribe-removes", pkg+".derivedSet.InheritFrom", "method not found")
-	} else if hasAll(s, "unsubscribeCallbacks=append(unsubscribeCallbacks,unsubscribeFromSource,removeSourceElements)", "s.inheritMutations(sourceElements.Apply(appliedMutations))", "WithDeletedElements(sourceElements)") {
-		r.Pass("derivedset/unsubscribe-removes", pkg+".derivedSet.InheritFrom", p.posStr(fd.Pos()), "per-source element tracking; unsubscribe = source unsubscribe + removal of the source's elements")
 	} else {
-		r.Fail("derivedset/unsubscribe-removes", pkg+".derivedSet.InheritFrom", p.posStr(fd.Pos()), "unsubscribing a source must both stop the subscription and remove the elements inherited from it: "+s)
+		// InheritFrom together with the unexported helpers it delegates to (bounded):
+		//  (1) the source subscription forwards X.Apply(mutations) of a per-source set X to inheritMutations
+		//  (2) a remover forwards WithDeletedElements(X) of the same X to inheritMutations
+		//  (3) the derived set is never changed with X directly (that would bypass the occurrence counts)
+		var bodies []*ast.BlockStmt
+		seenFd := map[*ast.FuncDecl]bool{fd: true}
+		var collect func(b *ast.BlockStmt, depth int)
+		collect = func(b *ast.BlockStmt, depth int) {
+			bodies = append(bodies, b)
+			if depth >= 2 {
+				return
+			}
+			ast.Inspect(b, func(n ast.Node) bool {
+				if cl, ok := n.(*ast.CallExpr); ok {
+					if fn := staticCallee(info, cl); fn != nil {
+						if hd := p.decls().byFunc[fn.Origin()]; hd != nil && !hd.Name.IsExported() && !seenFd[hd] && hd.Name.Name != "inheritMutations" && p.decls().infoOf[hd] == info {
+							seenFd[hd] = true
+							collect(hd.Body, depth+1)
+						}
+					}
+				}
+				return true
+			})
+		}
+		collect(fd.Body, 0)
+		perSource := map[types.Object]bool{}
+		applied, removed := map[types.Object]bool{}, map[types.Object]bool{}
+		var direct []string
+		for _, b := range bodies {
+			ast.Inspect(b, func(n ast.Node) bool {
+				if as, ok := n.(*ast.AssignStmt); ok && len(as.Lhs) == 1 && len(as.Rhs) == 1 && strings.HasPrefix(rawKey(as.Rhs[0]), "ds.NewSet[") {
+					if o := objOfIdent(info, as.Lhs[0]); o != nil {
+						perSource[o] = true
+					}
+				}
+				return true
+			})
+		}
+		for _, b := range bodies {
+			ast.Inspect(b, func(n ast.Node) bool {
+				cl, ok := n.(*ast.CallExpr)
+				if !ok {
+					return true
+				}
+				k := rawKey(cl.Fun)
+				if strings.HasSuffix(k, ".inheritMutations") && len(cl.Args) == 1 {
+					ast.Inspect(cl.Args[0], func(m ast.Node) bool {
+						c2, ok := m.(*ast.CallExpr)
+						if !ok {
+							return true
+						}
+						k2 := rawKey(c2.Fun)
+						if se, ok := ast.Unparen(c2.Fun).(*ast.SelectorExpr); ok && se.Sel.Name == "Apply" && perSource[objOfIdent(info, se.X)] {
+							applied[objOfIdent(info, se.X)] = true
+						}
+						if strings.HasSuffix(k2, ".WithDeletedElements") && len(c2.Args) == 1 && perSource[objOfIdent(info, c2.Args[0])] {
+							removed[objOfIdent(info, c2.Args[0])] = true
+						}
+						return true
+					})
+					return true
+				}
+				if se, ok := ast.Unparen(cl.Fun).(*ast.SelectorExpr); ok && isRecvName(se.X, "s") {
+					for _, a := range cl.Args {
+						if perSource[objOfIdent(info, a)] {
+							direct = append(direct, p.posStr(cl.Pos())+" "+exprKey(cl))
+						}
+					}
+				}
+				return true
+			})
+		}
+		ok := len(perSource) > 0
+		for o := range perSource {
+			if !applied[o] || !removed[o] {
+				ok = false
+			}
+		}
+		// (4) both the source's unsubscribe function and the remover are handed out: each is a value
+		// (variable or literal) that appears in an append(...) or a return of these functions
+		handedOut := func(isValue func(e ast.Expr) bool) bool {
+			out := false
+			for _, b := range bodies {
+				ast.Inspect(b, func(n ast.Node) bool {
+					var exprs []ast.Expr
+					switch x := n.(type) {
+					case *ast.CallExpr:
+						if rawKey(x.Fun) == "append" || strings.HasSuffix(rawKey(x.Fun), ".Batch") {
+							exprs = x.Args
+						}
+					case *ast.ReturnStmt:
+						exprs = x.Results
+					}
+					for _, e := range exprs {
+						if isValue(e) {
+							out = true
+						}
+					}
+					return true
+				})
+			}
+			return out
+		}
+		valueOf := func(match func(ast.Expr) bool) func(ast.Expr) bool {
+			vars := map[types.Object]bool{}
+			for _, b := range bodies {
+				ast.Inspect(b, func(n ast.Node) bool {
+					if as, ok := n.(*ast.AssignStmt); ok && len(as.Lhs) == len(as.Rhs) {
+						for i, rhs := range as.Rhs {
+							if match(rhs) {
+								if o := objOfIdent(info, as.Lhs[i]); o != nil {
+									vars[o] = true
+								}
+							}
+						}
+					}
+					return true
+				})
+			}
+			return func(e ast.Expr) bool { return match(e) || vars[objOfIdent(info, e)] }
+		}
+		isRemover := valueOf(func(e ast.Expr) bool {
+			lit, ok := ast.Unparen(e).(*ast.FuncLit)
+			return ok && strings.Contains(rawKey2(lit.Body), ".WithDeletedElements(")
+		})
+		isUnsub := valueOf(func(e ast.Expr) bool {
+			c, ok := ast.Unparen(e).(*ast.CallExpr)
+			return ok && strings.HasSuffix(rawKey(c.Fun), ".OnUpdate")
+		})
+		if ok && !(handedOut(isRemover) && handedOut(isUnsub)) {
+			ok = false
+		}
+		switch {
+		case len(direct) > 0:
+			r.Fail("derivedset/unsubscribe-removes", pkg+".derivedSet.InheritFrom", p.posStr(fd.Pos()), "the derived set is changed directly with a source's elements ("+direct[0]+"): this bypasses the per-element occurrence counts, so elements still provided by another source disappear and later updates are swallowed")
+		case !ok:
+			r.Fail("derivedset/unsubscribe-removes", pkg+".derivedSet.InheritFrom", p.posStr(fd.Pos()), "unsubscribing a source must both stop the subscription and remove the elements inherited from it through inheritMutations (per-source set tracked: applied and removed)")
+		default:
+			r.Pass("derivedset/unsubscribe-removes", pkg+".derivedSet.InheritFrom", p.posStr(fd.Pos()), "per-source element tracking; unsubscribe = source unsubscribe + removal of the source's elements through the counted path")
+		}
 	}
 	// (3) wait group
 	if f := p.CFGOf(pkg, "waitGroup", "Add"); f == nil {
@@ -147,9 +284,9 @@ func runC14(c *Ctx) {
 	checkGuards(r, p, "lock/guarded-by", []GuardRow{
 		{Pkg: pkg, Type: "evictionState", Mutex: "mutex", Fields: []string{"lastEvictedSlot", "evictionEvents"}},
 		{Pkg: pkg, Type: "sortedSet", Mutex: "mutex", Fields: []string{"sortedElements", "elements"},
-			CH: map[string]LockMode{"updatePosition": ModeW, "swap": ModeW},
+			CH:       map[string]LockMode{"updatePosition": ModeW, "swap": ModeW},
+			CondLock: map[string]string{".unsubscribeFromWeightUpdates!=nil": "the weight callback takes the mutex itself unless it is the initial invocation, which runs inside addSorted's own critical section"},
 			Exempt: map[string]string{
-				"sortedSet.addSorted":      "the weight callback takes the mutex itself unless it is the initial invocation, which runs inside addSorted's own critical section (tabled conditional lock)",
 				"newSortedSetElement":      "called from GetOrCreate's factory inside addSorted's critical section",
 				"sortedSet.updatePosition": "caller-holds (its deferred closure runs before the caller unlocks)",
 			}},
@@ -177,25 +314,45 @@ func runC14(c *Ctx) {
 		r.Unresolved("evict/pre-triggered-iff-evicted", pkg+".evictionState.EvictionEvent", "method not found")
 	} else {
 		fd := p.FuncDecl(pkg, "evictionState", "EvictionEvent")
-		cond := ""
-		ast.Inspect(fd.Body, func(n ast.Node) bool {
-			if is, ok := n.(*ast.IfStmt); ok && cond == "" {
-				cond = exprKey(is.Cond)
+		recv := fd.Recv.List[0].Names[0].Name
+		last := recv + ".lastEvictedSlot"
+		// truth table over (nothing evicted yet, slot > last evicted), whatever the spelling:
+		// the shared pre-triggered event is returned exactly when something was evicted and the
+		// slot is not after it; otherwise the slot gets (or shares) its own event
+		okShape, detail := true, ""
+		for _, c := range []struct{ nothing, after bool }{{true, false}, {true, true}, {false, true}, {false, false}} {
+			got := f.ReturnsUnder(map[string]bool{
+				Rel{last, "==", "nil"}.String():       c.nothing,
+				Rel{"*" + last, "<", "slot"}.String(): c.after,
+			})
+			wantPre := !c.nothing && !c.after
+			pre, fresh := got["evictedSlotEvent"], false
+			for k := range got {
+				if k != "evictedSlotEvent" {
+					fresh = true
+				}
 			}
-			return true
+			if pre != wantPre || fresh == wantPre {
+				okShape = false
+				detail = fmt.Sprintf("nothing-evicted=%v slot>last=%v returns %v", c.nothing, c.after, got)
+			}
+		}
+		creates := f.Find(func(n ast.Node) bool {
+			cl, ok := n.(*ast.CallExpr)
+			return ok && strings.HasSuffix(exprKey(cl.Fun), ".evictionEvents.GetOrCreate") && len(cl.Args) == 2 && exprKey(cl.Args[0]) == "slot"
 		})
-		okShape := cond == "((e.lastEvictedSlot==nil)||(slot>*e.lastEvictedSlot))"
-		s, _ := srcOf(p, pkg, "evictionState", "EvictionEvent")
-		if okShape && hasAll(s, "return evictedSlotEvent", "GetOrCreate(slot,NewEvent)") {
+		if okShape && len(creates) > 0 {
 			r.Pass("evict/pre-triggered-iff-evicted", pkg+".evictionState.EvictionEvent", p.posStr(fd.Pos()), "a fresh event iff nothing was evicted yet or slot > last evicted; otherwise the pre-triggered event")
 		} else {
-			r.Fail("evict/pre-triggered-iff-evicted", pkg+".evictionState.EvictionEvent", p.posStr(fd.Pos()), "the pre-triggered event must be returned exactly for slot <= lastEvictedSlot; found condition "+cond)
+			r.Fail("evict/pre-triggered-iff-evicted", pkg+".evictionState.EvictionEvent", p.posStr(fd.Pos()), "the pre-triggered event must be returned exactly for slot <= lastEvictedSlot; "+detail)
 		}
 	}
 	if f := p.CFGOf(pkg, "evictionState", "evict"); f == nil {
 		r.Unresolved("evict/advance", pkg+".evictionState.evict", "method not found")
 	} else {
-		already := f.RelEdges(func(rel Rel) bool { return rel.Op == "<=" && rel.L == "slot" && rel.R == "*e.lastEvictedSlot" })
+		already := f.RelEdges(func(rel Rel) bool {
+			return rel.Op == "<=" && rel.L == "slot" && strings.HasPrefix(rel.R, "*") && strings.HasSuffix(rel.R, ".lastEvictedSlot")
+		})
 		isAdvance := func(n ast.Node) bool {
 			as, ok := n.(*ast.AssignStmt)
 			return ok && len(as.Lhs) == 1 && fieldSel(info, as.Lhs[0], "lastEvictedSlot") && exprKey(as.Rhs[0]) == "&slot"
@@ -204,20 +361,27 @@ func runC14(c *Ctx) {
 		for _, e := range already {
 			ex[e] = true
 		}
-		_ = ex
-		// every path that does not take the already-evicted edge advances lastEvictedSlot
-		w, found := f.reach(f.entry(), &searchOpts{AvoidNode: isAdvance, AvoidEdge: func(e Edge) bool {
-			// the true edge of the conjunction (lastEvictedSlot != nil && slot <= last) returns nil
-			c := condOf(e.From)
-			return c != nil && e.Succ == 0 && strings.Contains(exprKey(c), "(slot<=*e.lastEvictedSlot)")
-		}}, func(pt Point, atExit bool) bool { return atExit })
-		loopOK := false
-		ast.Inspect(f.Body, func(n ast.Node) bool {
-			if fs, ok := n.(*ast.ForStmt); ok && fs.Cond != nil && exprKey(fs.Cond) == "(i<=slot)" {
-				loopOK = true
+		// every path that does not take an already-evicted edge (slot <= last) advances lastEvictedSlot
+		w, found := f.reach(f.entry(), &searchOpts{AvoidNode: isAdvance, AvoidEdge: func(e Edge) bool { return ex[e] }}, func(pt Point, atExit bool) bool { return atExit })
+		if len(already) == 0 {
+			found = true
+		}
+		// ... and an already evicted slot changes nothing
+		for _, e := range already {
+			if _, adv := f.reach(Point{e.From.Succs[e.Succ], 0}, nil, func(pt Point, atExit bool) bool {
+				return !atExit && containsMatch(f.nodeAt(pt), isAdvance)
+			}); adv {
+				found = true
 			}
-			return true
-		})
+		}
+		loopOK := false
+		for _, l := range f.Loops() {
+			if c := condOf(l.Head); c != nil {
+				if rel, ok := relOf(c); ok && rel.Op == "<=" && rel.R == "slot" {
+					loopOK = true
+				}
+			}
+		}
 		if found || !loopOK {
 			r.Fail("evict/advance", pkg+".evictionState.evict", f.P.posStr(f.Body.Pos()), "an eviction must collect the events of every slot up to and including the evicted one and advance lastEvictedSlot on every such path", w...)
 		} else {
@@ -432,4 +596,22 @@ func checkDerivedVariableWiring(r *Reporter, p *Prog, pkg string, fd *ast.FuncDe
 	} else {
 		r.Pass("derived/wiring", key, p.posStr(fd.Pos()), fmt.Sprintf("%d inputs, each subscribed with initial trigger; argument i is the new value in subscription i and Get() elsewhere", len(inputs)))
 	}
+}
+
+func isRecvName(e ast.Expr, name string) bool {
+	id, ok := ast.Unparen(e).(*ast.Ident)
+	return ok && id.Name == name
+}
+
+// rawKey2 renders a block as the concatenation of the keys of its calls (enough to look for a callee).
+func rawKey2(b *ast.BlockStmt) string {
+	var sb strings.Builder
+	ast.Inspect(b, func(n ast.Node) bool {
+		if c, ok := n.(*ast.CallExpr); ok {
+			sb.WriteString(rawKey(c.Fun))
+			sb.WriteString("(;")
+		}
+		return true
+	})
+	return sb.String()
 }
